@@ -288,6 +288,8 @@ def c01(ctx):
         itr, problems = miri.std_run(target, sub)
         miri.compare(ctx, target, miri.STD_TARGETS[target], sub, itr, problems, oracle, DIGEST + ("PANIC", "FAULT"),
                      "PortableHash vs Spec.HH")
+    # translator tie: the kernel functions of src/portable.rs, re-translated from the source text just now, mean what the model says
+    facts_gate(ctx, "C01")
     proof_verdict(ctx, ok)
 
 
